@@ -74,6 +74,12 @@ def streams(tier, rng, P, only=None, cases=None):
             p1 = to_prog(blocks); p2 = to_prog(permute(rng, blocks))
             s1 = mml.pr(p1); s2 = mml.pr(p2)
             cs.append(dict(req="compile2 %s %s" % (hx(s1), hx(s2)), src=s1, src2=s2, show=s1[:300], sexp=None, ntr=len(set(b[0] for b in blocks)), key="pt%d" % i))
+        # a track selected from inside a user function (or a macro) stays selected after the call: the commands that follow are addressed to it
+        for j, (a, b) in enumerate([("Function SEL(INT T){ TR=T } SEL(3) c SEL(1) d SEL(3) e", "TR=3 c TR=1 d TR=3 e"),
+                                    ("Function HEAD(){ TR=2 l8 cd } TR=1 c HEAD() e TrackSync TR=1 g", "TR=1 c TR=2 l8 cd e TrackSync TR=1 g"),
+                                    ("#T2={TR=2} TR=1 c #T2 d TR=1 e", "TR=1 c TR=2 d TR=1 e"), ("Function K(){ TR(4) CH(3) } K() c d TR(1) e", "TR(4) CH(3) c d TR(1) e"),
+                                    ("Function W(N){ FOR(INT I=1;I<=N;I++){ TR=I c } } W(3) d", "TR=1 c TR=2 c TR=3 c d")]):
+            cs.append(dict(req="compile2 %s %s" % (hx(a), hx(b)), src=a, src2=b, show=a, sexp=None, ntr=3, key="fsel%d" % j))
         for j, (a, b) in enumerate([("TR(3) c TR(2) d TR(1) e", "TR(1) e TR(2) d TR(3) c")]):
             cs.append(dict(req="compile2 %s %s" % (hx(a), hx(b)), src=a, src2=b, show=a, sexp=None, ntr=3, key="fixed%d" % j))
         return cs
